@@ -2,7 +2,7 @@ import os, re, sys
 sys.path.insert(0, os.path.join(os.path.dirname(os.path.dirname(os.path.abspath(__file__))), 'lib'))
 
 import irb
-OPS = ['prune_graft', 'tokens_prune', 'pop_link', 'split', 'append_child', 'new_parent', 'remove_child', 'chain_append']
+OPS = ['prune_graft', 'tokens_prune', 'pop_link', 'split', 'append_child', 'new_parent', 'remove_child', 'chain_append', 'split_on_char']
 
 META = dict(
     functions=['token.c: token_new, token_copy, token_new_parent, token_chain_append, token_append_child, token_remove_first_child, '
